@@ -397,4 +397,5 @@ def run(ctx):
 
 SELFTESTS = [
     (rule_bounds, ["c17_bad.cc"], ["c17_good.cc"], "Access::read_block"),
+    (rule_volume_extent, ["c17_vol_bad.cc"], ["c17_vol_good.cc"], "Volume#1"),
 ]
